@@ -428,7 +428,7 @@ class ContractDB:
                 for exc_name, cond in self.raise_clauses(it, con, nfr):
                     rc = getattr(it, "raise_collect", None)
                     if rc is not None and len(it.pure_ctx) == 1:
-                        rc.append((exc_name, cond, con))
+                        rc.append((exc_name, z3.And(*it.pure_extra, cond) if it.pure_extra else cond, con))
                     else:
                         it.oblige_pure(f"purecall:{fi.qname}/no-raise:{exc_name}", z3.Not(cond), site=("praise", fi.qname, exc_name))
         rty = self.return_type(it, con, fi)
